@@ -178,8 +178,9 @@ def rule_spelling(ck, F, X):
         ck.floor("R4", "OtherRustType construction sites", n_refs, 2)
         # references (ii): envelope member types in write_soap_operation
         n_env = 0
+        from rules import anchors as A
         for fn in X.events:
-            if not fn.endswith("write_soap_operation"):
+            if fn != A.envelope_emitter(X):
                 continue
             for g in T.struct_groups(X, fn):
                 for (ev, name, ctx, tytext) in g.members:
@@ -197,12 +198,12 @@ def rule_spelling(ck, F, X):
                         alt_tag = "+ns" if any(c[0] == "alt" and "in_namespace" in og.nf_str(c[1]) and c[2] for c in ev.ctx) else "-ns"
                         gkey = _name_key(g.name) if g.name[0] != "lit" else g.name[1]
                         if tuple(ch) == def_chain:
-                            ck.ok("R4", f"type-ref:{gkey}:{alt_tag}", ev.site, f"envelope member type spelled {ch}", fn="write_soap_operation")
+                            ck.ok("R4", f"type-ref:{gkey}:{alt_tag}", ev.site, f"envelope member type spelled {ch}", fn="envelope")
                         else:
                             ck.violation("R4", f"type-ref:{gkey}:{alt_tag}", ev.site,
                                          f"envelope struct `{gname}`: member type `{og.nf_str(nf)[:90]}` is spelled {ch} but generated structs are "
                                          f"defined as {list(def_chain)}(xml name): does not compile for element names that are not already in that case",
-                                         fn="write_soap_operation")
+                                         fn="envelope")
         ck.floor("R4", "envelope member type references", n_env, 4)
     # (b) module names: definition vs references
     mod_defs = [ev for ev in stream if ev.kind == "emit" and RE_DEF.match(ev.skeleton()) and RE_DEF.match(ev.skeleton()).group(1) == "mod"]
